@@ -1,5 +1,8 @@
 /-! The manifest's text format and replay (mani/src/lib.rs).  Strings are byte lists (the reader
-    rejects non-ASCII lines); the CRC is a parameter. -/
+    rejects non-ASCII lines); the CRC is a parameter.  The string set and the info map are the
+    sorted lists that stand for `BTreeSet<String>` / `BTreeMap<char, String>` (`apply_edit`,
+    `to_edit` and the writer all go through them in that order); the `Edit` API is the repaired one
+    (D-12, D-24), which refuses what the reader cannot hand back. -/
 namespace Blue.Mani
 
 structure Edit where
@@ -15,15 +18,49 @@ structure State where
   info : List (Nat × List Nat)
 deriving DecidableEq, Repr
 
+/-- `String`'s `Ord` (the order of `BTreeSet<String>`): bytewise lexicographic -/
+def ltBytes : List Nat → List Nat → Bool
+  | [], [] => false
+  | [], _ :: _ => true
+  | _ :: _, [] => false
+  | a :: s, b :: t => if a < b then true else if b < a then false else ltBytes s t
+
+/-- `BTreeSet::insert` on the sorted, duplicate-free list that stands for the set -/
+def insertStr (x : List Nat) : List (List Nat) → List (List Nat)
+  | [] => [x]
+  | y :: t => if x = y then y :: t else if ltBytes x y then x :: y :: t else y :: insertStr x t
+
+/-- `BTreeMap::insert` on the list sorted by key that stands for the map -/
 def setInfo (k : Nat) (v : List Nat) : List (Nat × List Nat) → List (Nat × List Nat)
   | [] => [(k, v)]
-  | (k', v') :: t => if k' = k then (k, v) :: t else (k', v') :: setInfo k v t
+  | (k', v') :: t =>
+    if k = k' then (k, v) :: t else if k < k' then (k, v) :: (k', v') :: t else (k', v') :: setInfo k v t
 
 /-- `apply_edit`: removals, then additions, then info -/
 def applyEdit (s : State) (e : Edit) : State :=
   let strs := s.strs.filter (fun x => !e.rm.contains x)
-  let strs := e.add.foldl (fun acc x => if acc.contains x then acc else acc ++ [x]) strs
+  let strs := e.add.foldl (fun acc x => insertStr x acc) strs
   ⟨strs, e.info.foldl (fun acc kv => setInfo kv.1 kv.2 acc) s.info⟩
+
+/-! The `Edit` API as repaired (D-12, D-24): `Edit::add`/`rm`/`info` refuse what the reader cannot
+    hand back.  `none` = the call returns an error and the edit is unchanged. -/
+
+/-- `Edit::check_str`: non-empty, ASCII, no newline, no trailing carriage return -/
+def strOk (s : List Nat) : Bool :=
+  !s.isEmpty && s.all (fun b => decide (b < 128) && decide (b ≠ 10)) && decide (s.getLast? ≠ some 13)
+
+/-- `Edit::check_key`: ASCII, not a newline, not one of the action characters `+`/`-` -/
+def keyOk (k : Nat) : Bool := decide (k < 128) && decide (k ≠ 10) && decide (k ≠ 43) && decide (k ≠ 45)
+
+def Edit.addStr (e : Edit) (s : List Nat) : Option Edit :=
+  if strOk s then some { e with add := insertStr s e.add } else none
+def Edit.rmStr (e : Edit) (s : List Nat) : Option Edit :=
+  if strOk s then some { e with rm := insertStr s e.rm } else none
+def Edit.setInfo (e : Edit) (k : Nat) (v : List Nat) : Option Edit :=
+  if keyOk k && strOk v then some { e with info := Blue.Mani.setInfo k v e.info } else none
+
+/-- `Manifest::size` -/
+def State.size (s : State) : Nat := (s.strs.map List.length).sum + (s.info.map (·.2.length)).sum
 
 /-- `{:08x}` of a 32-bit value, as ASCII bytes -/
 def hexDigit (n : Nat) : Nat := if n < 10 then 48 + n else 87 + n
